@@ -38,6 +38,8 @@ def replay_program(inp, pools):
         return ["(def g0 11)", "(def gl (list 1 2 3))", "(def a0 3)", "(def w0 40)", "(def w1 50)"] + parts
     if kind == "hist":
         return f[2].split(" ;; ")   # every step is its own evaluation; steps starting with ? are the observations
+    if kind == "gen":
+        return f[1].split(" ;; ")   # macro definitions, the function with macro calls, the same function with the expansions by hand (compiled, not run)
     if kind == "call":
         return ["(def g0 11)", "(def gl (list 1 2 3))", "(def a0 3)", "(def w0 40)", "(def w1 50)"] + f[3].split(" ;; ") + [f[4]]
     return []
@@ -51,6 +53,7 @@ def main(argv):
         "SexpMarker cannot be denoted by program text (it is a Go package variable), so it is a separate kind of stack item in the model",
         "hash construction from the operand list (MakeHash/HashSet) is shared by model and specification (C14's subject); keys exercised are ints, symbols and strings",
         "macro route: the rest of the code generator is a section variable; call sites are compared against the hand-substituted program run by the real interpreter",
+        "code generator model (MacroGen): the projection of the bytecode onto scope/control instructions for the fragment begin/let/letseq/newScope/for/cond/def/set/break/continue/calls/self tail calls/macro calls; macro expanders are pure functions of the argument forms; tied by the gen stream against the real bytecode of compiled functions (C04's check_fn checks the same discipline on complete bytecode)",
     ])
     cases = c.harness("c15")
     prop_fail, corr_fail = [], []
